@@ -1,6 +1,6 @@
 (* C08 - Builder/Compiler serialization is identical to direct assembling: theorems about the Builder model (Verif.Builder.BuilderModel),
    which the check ties to core/builder.cpp on every run (per-command node-list differential).  Statements only; proofs by reference. *)
-From Coq Require Import ZArith List Bool.
+From Coq Require Import ZArith List Bool Permutation.
 From Verif Require Import Builder.BuilderModel Builder.BuilderProofs Builder.BuilderGrouping Builder.BuilderLinks Builder.BuilderSections.
 Import ListNotations.
 Local Open Scope Z_scope.
@@ -169,14 +169,18 @@ From Verif Require Import Labels.LabelsModel Builder.AsmOrder Builder.BuilderIma
 
 (* ORDER IRRELEVANCE of assembling, proved on C03's label/fixup machine (Verif.Labels.LabelsModel: new_fixup, bind_label with its fixup
    walk, resolve_cross_section_fixups, every displacement format of the two backends): two programs whose per-section operation sequences
-   coincide - however the sections interleave - produce the same label table, the same section sizes and, after layout at ANY section
-   offsets and cross-section resolution, the same bytes in every section.  Labels and sections are created first, every label is bound
-   at most once, no address wraps around 2^64.  Fragment: raw bytes, gaps, label references, binds (no relocation entries). *)
+   coincide - however the sections interleave - produce the same label table, the same unresolved-fixup count, the same section sizes and, after
+   layout at ANY section offsets and cross-section resolution, the same bytes in every section (a one-to-one correspondence between
+   references and reference items is part of the invariant).  Labels and sections are created first, every label is bound
+   at most once, no bind is refused ([all_fit]: every same-section reference to the label can encode its displacement - a condition on
+   the per-section sequences, hence itself order independent), no address wraps around 2^64.  Fragment: raw bytes, gaps, label references, binds and absolute
+   references (embed_label: the RelToAbs relocation entries are the same up to creation order, with the same final payload and target
+   section); label deltas (embed_label_delta) are outside. *)
 Theorem C08_order_irrelevant : forall nl ns t1 t2 offs,
-  (forall k, proj k t1 = proj k t2) -> tags_ok ns t1 -> tags_ok ns t2 -> NoDup (bound_labels t1) -> nowrap nl ns t1 offs ->
+  (forall k, proj k t1 = proj k t2) -> tags_ok ns t1 -> tags_ok ns t2 -> NoDup (bound_labels t1) -> all_fit nl ns t1 -> nowrap nl ns t1 offs ->
   let s1 := LabelsModel.run init ((prelude nl ns ++ expand t1) ++ [OResolve offs]) in
   let s2 := LabelsModel.run init ((prelude nl ns ++ expand t2) ++ [OResolve offs]) in
-  labels s1 = labels s2 /\
+  labels s1 = labels s2 /\ unresolved s1 = unresolved s2 /\ Permutation (relocs s1) (relocs s2) /\
   forall k, (k < S ns)%nat ->
     s_len (nsec s1 k) = s_len (nsec s2 k) /\
     sec_image (refs s1) (s_items (nsec s1 k)) = sec_image (refs s2) (s_items (nsec s2 k)).
@@ -186,14 +190,20 @@ Print Assumptions C08_order_irrelevant.
 (* SAME IMAGE (was C08_same_image_partial with the whole assembler as hypothesis): for EVERY instruction encoder [enc] whose output for a
    call depends on the call and on the calls issued before in the same section, assembling what the Builder serializes and assembling the
    calls directly give - on C03's machine - the same label table, section sizes and resolved bytes in every section. *)
+(* ... and the layout + resolution step itself reports no error, in any order *)
+Theorem C08_resolve_ok : forall nl ns t offs, tags_ok ns t -> NoDup (bound_labels t) -> all_fit nl ns t -> nowrap nl ns t offs ->
+  snd (LabelsModel.step (LabelsModel.run init (prelude nl ns ++ expand t)) (OResolve offs)) = EOk.
+Proof. exact resolve_ok. Qed.
+Print Assumptions C08_resolve_ok.
+
 Theorem C08_same_image : forall (enc : list ecall -> ecall -> list sop) nl ns offs rs cs,
   Forall (fun c => is_emitter_call c = true) cs -> all_ok (init_state rs) cs = true ->
   let direct := program enc (trace cs) in
   let serialized := program enc (trace (replay (BuilderModel.run (init_state rs) cs))) in
-  secs_valid ns (trace cs) -> NoDup (bound_labels direct) -> nowrap nl ns direct offs ->
+  secs_valid ns (trace cs) -> NoDup (bound_labels direct) -> all_fit nl ns direct -> nowrap nl ns direct offs ->
   let s1 := LabelsModel.run init ((prelude nl ns ++ expand direct) ++ [OResolve offs]) in
   let s2 := LabelsModel.run init ((prelude nl ns ++ expand serialized) ++ [OResolve offs]) in
-  labels s1 = labels s2 /\
+  labels s1 = labels s2 /\ unresolved s1 = unresolved s2 /\ Permutation (relocs s1) (relocs s2) /\
   forall k, (k < S ns)%nat ->
     s_len (nsec s1 k) = s_len (nsec s2 k) /\
     sec_image (refs s1) (s_items (nsec s1 k)) = sec_image (refs s2) (s_items (nsec s2 k)).
@@ -204,7 +214,7 @@ Print Assumptions C08_same_image.
 Theorem C08_same_image_example :
   let direct := program enc_ex (trace example_program) in
   secs_valid 1 (trace example_program) /\ NoDup (bound_labels direct) /\ nowrap 2 1 direct [0; 4096] /\
-  proj 0 direct <> [] /\ proj 1 direct <> [].
+  proj 0 direct <> [] /\ proj 1 direct <> [] /\ all_fit 2 1 direct.
 Proof. exact example_image_hypotheses. Qed.
 Print Assumptions C08_same_image_example.
 
